@@ -252,7 +252,7 @@ func formatFSM(format string, a []cty.Value) (string, error) {
 			case 11:
 				// line 77 "format_fsm.rl"
 
-				verb.ArgNum = (10 * verb.ArgNum) + (int(data[p]) - '0')
+				verb.ArgNum = formatArgNumAppendDigit(verb.ArgNum, data[p])
 
 			case 12:
 				// line 81 "format_fsm.rl"
